@@ -36,11 +36,10 @@ import (
 
 // Finding ids of this property (see notes/C20.md).
 const (
-	idAlterBelow   = "C20-alter-below-max"     // ALTER TABLE .. AUTO_INCREMENT = n with n <= max(id) is taken verbatim: generated ids collide with / duplicate existing ones
-	idOkFirstRow   = "C20-okresult-first-row"  // OkResult.InsertID is the id of the first inserted row even when that id was explicit
-	idIgnoreLastID = "C20-ignore-lastid"       // LAST_INSERT_ID() after INSERT IGNORE counts stored rows, not statement rows, to find the first generated one
-	idExhaustedDup = "C20-exhausted-duplicate" // non-unique KEY(id): at the type's maximum the maximum is generated again and stored (MySQL: the attempt fails)
-	idReplaceLast  = "C20-replace-lastid"      // REPLACE that generates an id updates neither LAST_INSERT_ID() nor OkResult.InsertID
+	idAlterBelow   = "C20-alter-below-max"    // ALTER TABLE .. AUTO_INCREMENT = n with n <= max(id) is taken verbatim: generated ids collide with / duplicate existing ones
+	idOkFirstRow   = "C20-okresult-first-row" // OkResult.InsertID is the id of the first inserted row even when that id was explicit
+	idIgnoreLastID = "C20-ignore-lastid"      // LAST_INSERT_ID() after INSERT IGNORE counts stored rows, not statement rows, to find the first generated one
+	idReplaceLast  = "C20-replace-lastid"     // REPLACE that generates an id updates neither LAST_INSERT_ID() nor OkResult.InsertID
 )
 
 type intType struct {
@@ -400,9 +399,17 @@ func (m *mach) insert(rt *rapid.T) {
 	firstStoredExplicit := false
 	var kthStored []*big.Int // ids of the stored rows in statement order
 	floor := m.floor
+	floorBefore := m.floor
+	// REPLACE: a generating row that a later row of the same statement displaced was "successfully
+	// inserted", but its id cannot be read back; if it precedes the first generated id that can,
+	// the first generated id of the statement is only known to lie in (floorBefore, firstGen]
+	lostGenFirst := false
 	for _, r := range rows {
 		st, ok := byTag[r.v]
 		if !ok {
+			if r.gen && mode == "REPLACE" && firstGen == nil {
+				lostGenFirst = true
+			}
 			continue // ignored (IGNORE) or displaced by a later row (REPLACE)
 		}
 		kthStored = append(kthStored, st.id)
@@ -428,9 +435,12 @@ func (m *mach) insert(rt *rapid.T) {
 			// no value left: the statement asks only for "error or no duplicate"
 			for _, p := range after {
 				if p.id.Cmp(g) == 0 && p.v != st.v {
-					// signature of C20-exhausted-duplicate: no unique key on id, the type's
-					// maximum is stored a second time
-					if !m.pk && g.Cmp(m.typ.max) == 0 && kf.Suppress(m.st, idExhaustedDup) {
+					// Not asserted: with a non-unique KEY(id) the engine stores the type's maximum a
+					// second time, and so does MySQL (the generated value is clipped to the type's
+					// range; only a unique key turns that into an error). The statement does not say
+					// what an exhausted counter has to do.
+					if !m.pk && g.Cmp(m.typ.max) == 0 {
+						m.st.Class("type-max-stored-again(non-unique key)")
 						break
 					}
 					rt.Fatalf("generated id %v duplicates a stored id (type exhausted: the attempt must fail)\nstatement: %s\nhistory:\n%s", g, q, m.history())
@@ -467,7 +477,10 @@ func (m *mach) insert(rt *rapid.T) {
 	// first generated id" by counting *stored* rows up to the statement index k of the first
 	// generating row: it reports the id of the k-th stored row (generated or not), or nothing
 	// if fewer rows were stored.
-	ignoreSignature := func() bool {
+	// The same countdown feeds OkResult.InsertID once it reports generated ids only (see
+	// C20-okresult-first-row): there the fallback, when fewer rows were stored, is the id of the
+	// first stored row.
+	ignoreSignatureFor := func(got, fallback *big.Int) bool {
 		if mode != "INSERT IGNORE" || len(kthStored) >= len(rows) || !anyGen {
 			return false
 		}
@@ -478,14 +491,32 @@ func (m *mach) insert(rt *rapid.T) {
 				break
 			}
 		}
-		buggy := prevLast
+		buggy := fallback
 		if k < len(kthStored) {
 			buggy = kthStored[k]
 		}
-		return (buggy == nil || sameMod64(gotLast, buggy)) && kf.Suppress(m.st, idIgnoreLastID)
+		return (buggy == nil || sameMod64(got, buggy)) && kf.Suppress(m.st, idIgnoreLastID)
 	}
+	ignoreSignature := func() bool { return ignoreSignatureFor(gotLast, prevLast) }
 
 	// --- reporting ---
+	if lostGenFirst {
+		upTo := firstGen
+		if upTo == nil {
+			upTo = m.typ.max
+		}
+		unchangedOK := firstGen == nil && (prevLast == nil || sameMod64(gotLast, prevLast))
+		exhausted := floorBefore.Cmp(m.typ.max) >= 0 // then the type's maximum is generated again
+		if !unchangedOK && !((gotLast.Cmp(floorBefore) > 0 || exhausted) && gotLast.Cmp(upTo) <= 0) {
+			if !(mode == "REPLACE" && (prevLast == nil || sameMod64(gotLast, prevLast)) && kf.Suppress(m.st, idReplaceLast)) {
+				rt.Fatalf("LAST_INSERT_ID() = %v after a REPLACE whose first generated id lies in (%v, %v] (before the statement: %v)\nstatement: %s\ntable after: %s\nhistory:\n%s",
+					gotLast, floorBefore, upTo, prevLast, q, showRows(after), m.history())
+			}
+		}
+		m.st.Class("replace-displaced-generated-row")
+		m.lastID = gotLast
+		return
+	}
 	if firstGen == nil {
 		// nothing generated and stored: LAST_INSERT_ID() keeps its value
 		if prevLast != nil && !sameMod64(gotLast, prevLast) && ignoreSignature() {
@@ -530,6 +561,10 @@ func (m *mach) insert(rt *rapid.T) {
 		// signature of C20-okresult-first-row: the first stored row had an explicit id and
 		// that id is what the OK result carries
 		if firstStoredExplicit && sameMod64(gotOK, firstStored) && kf.Suppress(m.st, idOkFirstRow) {
+			tolerated = true
+		}
+		// C20-ignore-lastid: the miscounted "first generating row" (or the first stored row)
+		if !tolerated && ignoreSignatureFor(gotOK, firstStored) {
 			tolerated = true
 		}
 		// C20-replace-lastid: REPLACE carries the session's previous LAST_INSERT_ID()
